@@ -112,12 +112,19 @@ Definition max_parts (idx : list nat) : nat :=
   list_max (map (fun v => length (select v idx idx)) (uniq idx)).
 
 (* RaggedIndexedContiguousArray with count variable [parts] and index variable [idx];
-   uncompressed shape (ncells, max_parts idx, list_max parts). *)
-Definition decode_indexed_contiguous (ncells : nat) (idx parts : list nat) (data : list Z) : arr3 :=
+   uncompressed shape (ncells, max_parts idx, list_max parts).  [ids] = the instance ids whose parts
+   fill rows 0, 1, ... in turn: numpy.unique(index) in the tree as pinned, range(n_instances) once
+   the repair of F06a (handoff/C06-fix-1.diff) is in; the two coincide whenever the distinct index
+   values are 0..k-1, in particular for every consistent container. *)
+Definition decode_indexed_contiguous_ids (ids : list nat) (ncells : nat) (idx parts : list nat)
+           (data : list Z) : arr3 :=
   let w1 := max_parts idx in
   let w2 := list_max parts in
   let slices := map (pad w2) (split_by parts data) in
-  rows_of ncells w1 (repeat None w2) (map (fun v => select v idx slices) (uniq idx)).
+  rows_of ncells w1 (repeat None w2) (map (fun v => select v idx slices) ids).
+
+Definition decode_indexed_contiguous (ncells : nat) (idx parts : list nat) (data : list Z) : arr3 :=
+  decode_indexed_contiguous_ids (uniq idx) ncells idx parts data.
 
 (* RaggedContiguousArray with count variable [counts]; shape (ncells, list_max counts); then
    _create_bounded_construct inserts a size-1 part dimension at position 1. *)
@@ -126,9 +133,12 @@ Definition decode_contiguous (counts : list nat) (data : list Z) : arr3 :=
   map (fun s => [pad w s]) (split_by counts data).
 
 (* RaggedIndexedArray for the interior ring variable: shape (ncells, max_parts idx) *)
-Definition decode_indexed (ncells : nat) (idx : list nat) (ring : list Z) : arr2 :=
+Definition decode_indexed_ids (ids : list nat) (ncells : nat) (idx : list nat) (ring : list Z) : arr2 :=
   let w1 := max_parts idx in
-  rows_of ncells w1 None (map (fun v => map Some (select v idx ring)) (uniq idx)).
+  rows_of ncells w1 None (map (fun v => map Some (select v idx ring)) ids).
+
+Definition decode_indexed (ncells : nat) (idx : list nat) (ring : list Z) : arr2 :=
+  decode_indexed_ids (uniq idx) ncells idx ring.
 
 (* What _parse_geometry + _create_bounded_construct present for one container.
    node_count absent  => ones(size of the node dimension), cells lie on the node dimension;
@@ -169,10 +179,29 @@ Definition read_ring_gen bump (g : container) : option arr2 :=
   | _, _ => None
   end.
 
+(* the same with rows taken over range(n_instances) (after handoff/C06-fix-1.diff) *)
+Definition read_bounds_range_gen bump (g : container) (data : list Z) : arr3 :=
+  match g_pnc g with
+  | Some parts =>
+      decode_indexed_contiguous_ids (seq 0 (n_cells g)) (n_cells g)
+        (derive_index_gen bump (nodes_per_geometry g) parts) parts data
+  | None => decode_contiguous (nodes_per_geometry g) data
+  end.
+
+Definition read_ring_range_gen bump (g : container) : option arr2 :=
+  match g_pnc g, g_ring g with
+  | Some parts, Some ring =>
+      Some (decode_indexed_ids (seq 0 (n_cells g)) (n_cells g)
+              (derive_index_gen bump (nodes_per_geometry g) parts) ring)
+  | _, _ => None
+  end.
+
 Definition new_bump := fun (_ k : nat) => k + 1.
 Definition old_bump := fun (i k : nat) => i + k + 1.
 Definition read_bounds := read_bounds_gen new_bump.
 Definition read_ring := read_ring_gen new_bump.
+Definition read_bounds_range := read_bounds_range_gen new_bump.
+Definition read_ring_range := read_ring_range_gen new_bump.
 Definition read_bounds_old := read_bounds_gen old_bump.
 Definition read_ring_old := read_ring_gen old_bump.
 
